@@ -7,6 +7,7 @@ import ClairModel.Model.PyMeta
 import ClairModel.Model.Pep440
 import ClairModel.Model.RpmPkg
 import ClairModel.Model.GoBin
+import ClairModel.Model.Jar
 
 namespace Driver.C02
 open ClairModel.Bytes ClairModel.Rfc822 ClairModel
@@ -97,6 +98,41 @@ def goAnswer (gv main nd : String) (rest : List String) : String :=
     | _, _, _, _ => "bad-op"
   | _, _, _ => "bad-op"
 
+partial def parseJarNodes : List String → List Jar.Node → Option (List Jar.Node × List String)
+  | ")" :: rest, acc => some (acc.reverse, rest)
+  | tok :: rest, acc =>
+    match tok.splitOn ":" with
+    | [m, n, d] =>
+      if m == "f" || m == "s" then
+        match toBytes n, toBytes d with
+        | some n, some d => parseJarNodes rest (.file n d :: acc)
+        | _, _ => none
+      else none
+    | ["j", n] =>
+      match toBytes n, rest with
+      | some n, "(" :: rest' =>
+        match parseJarNodes rest' [] with
+        | some (sub, rest'') => parseJarNodes rest'' (.jar n sub :: acc)
+        | none => none
+      | _, _ => none
+    | _ => none
+  | [], _ => none
+
+def showJarInfo (i : Jar.Info) : String :=
+  let k := match i.kind with | .maven => "maven" | .jar => "jar" | .file => "file"
+  let o := match i.outer with | none => "-" | some n => hexB n
+  ",".intercalate [hexB i.name, hexB i.version, k, o]
+
+def jarAnswer (path : String) (toks : List String) : String :=
+  match toBytes path, toks with
+  | some p, "(" :: rest =>
+    match parseJarNodes rest [] with
+    | some (ms, []) =>
+      let is := Jar.scan p ms
+      " ".intercalate (s!"ok {is.length}" :: is.map showJarInfo)
+    | _ => "bad-op"
+  | _, _ => "bad-op"
+
 def showErr : Err → String
   | .ok => "nil"
   | .eof => "eof"
@@ -147,6 +183,7 @@ def answer (l : String) : String :=
         | none => "err"
       | none => "bad-op"
   | "gobin" :: gv :: main :: nd :: rest => goAnswer gv main nd rest
+  | "jar" :: path :: toks => jarAnswer path toks
   | ["reset"] => "ok"
   | _ => "bad-op"
 
